@@ -44,6 +44,9 @@ def gen_cases(tier, rng):
         exc = "harness" if u < 0.5 else ("failpoint" if u < 0.65 else "none")
         cases.append({"cls": "program:" + exc, "seed": int(rng.integers(1 << 30)), "dim": int(rng.integers(2, 6)), "nobj": int(rng.integers(2, 6)),
                       "depth": int(rng.integers(1, 4)), "exc": exc, "steps": int(rng.integers(5, 41)), "cost": 1})
+    for i in range(12 if tier == "quick" else 60):
+        cases.append({"cls": "constructor-failure", "seed": int(rng.integers(1 << 30)), "dim": int(rng.integers(2, 5)), "depth": int(rng.integers(1, 3)),
+                      "which": str(rng.choice(["Operator", "SuperOperator", "TransitionDipoleMoment", "ReducedDensityMatrix"])), "cost": 0.5})
     return cases
 
 
@@ -168,6 +171,43 @@ def run_case(case, ctx):
     n = case["dim"]
     out = io.StringIO()
     fp = _fp["obj"]
+    if case["cls"] == "constructor-failure":
+        # an ordinary invalid-input exception raised by a constructor inside a (nested) context
+        A = qr.Hamiltonian(data=rsym(rng, n, "generic"))
+        A2 = qr.Hamiltonian(data=rsym(rng, n, "generic"))
+        Bd = rng.normal(size=(n, n))
+        B = qm.Operator(data=Bd.copy())
+        Cd = rng.normal(size=(n, n))
+        s0 = (tuple(m.basis_stack), len(m.basis_transformations), tuple(sorted(m.basis_registered)), bool(m._in_eigenbasis_of_context), m.current_basis_operator is None)
+        seen = None
+        try:
+            with qr.eigenbasis_of(A):
+                _ = B.data
+                with (qr.eigenbasis_of(A2) if case["depth"] == 2 else contextlib.nullcontext()):
+                    C = qm.Operator(data=Cd.copy())
+                    if case["which"] == "Operator":
+                        qm.Operator(data=numpy.zeros((n, n + 1)))
+                    elif case["which"] == "SuperOperator":
+                        qm.SuperOperator(data=numpy.zeros((n, n, n)))
+                    elif case["which"] == "TransitionDipoleMoment":
+                        qr.TransitionDipoleMoment(data=numpy.zeros((n, n + 1, 3)))
+                    else:
+                        qr.ReducedDensityMatrix(data=numpy.zeros((n + 1, n)))
+        except Exception as e:
+            seen = e
+        s1 = (tuple(m.basis_stack), len(m.basis_transformations), tuple(sorted(m.basis_registered)), bool(m._in_eigenbasis_of_context), m.current_basis_operator is None)
+        ctx.require("bookkeeping-restored", s1 == s0, {"after": "constructor raised inside a context", "which": case["which"], "before": s0, "now": s1,
+                                                       "exception_seen": repr(seen)[:120]})
+        ok = True
+        try:
+            ok = bool(numpy.allclose(numpy.array(B.data), Bd, atol=1e-10))
+        except Exception as e:
+            ok = False
+        ctx.require("restored-after-exit", ok, {"what": "object read inside the context, after a constructor failure", "which": case["which"]})
+        ctx.require("constructor-failure-raised", seen is not None, {"which": case["which"]})
+        ctx.key(("constructor-failure", case["which"], case["depth"], n))
+        ctx.nontrivial(seen is not None)
+        return
     events = []
     stats = {"transformed": False}
     tshort = qr.TimeAxis(0.0, 6, 0.5)
